@@ -3,7 +3,7 @@ import AdfObdd.Spec.TT
 import AdfObdd.OpsModel
 import AdfObdd.CountsDef
 import AdfObdd.Cubes
-import AdfObdd.WfCheck
+import AdfObdd.WfCheckFast
 import AdfObdd.MemoCheck
 /-! protocol handler of the diagram-store family: the algorithmic model (`= …` answers) is the
     proved `Store`; the specification (`~ …` answers) is the truth-table layer `TT`. -/
@@ -15,6 +15,9 @@ structure BddSt where
   tts : Array Nat := #[0, 0]         -- history index ↦ specification truth table
   nv : Nat := 0
   exception : Bool := false          -- adhoccounting without adhoccountmodels
+  /-- sampled mode (`newbig`): the specification follows the functions on the sub-cube in which
+  the listed free variables range and every other variable has its bit of the base assignment -/
+  big : Option (Nat × List Nat) := none
 
 def BddSt.fresh (nv : Nat) (exc : Bool) : BddSt :=
   { s := Store.init, hist := #[0, 1], tts := #[0, TT.mask nv], nv := nv, exception := exc }
@@ -49,11 +52,37 @@ def ttOp (nv : Nat) (tts : Array Nat) : Op → Nat
   | .xor x y => TT.xor (tts.getD x 0) (tts.getD y 0)
   | .restrict t v c => TT.restrict nv (tts.getD t 0) v c
 
+/-- the specification side in sampled mode: the same Boolean semantics, read on the sub-cube
+(`none`: the operation leaves the sub-cube; the generator never issues such a request) -/
+def ttOpBig (base : Nat) (free : List Nat) (tts : Array Nat) : Op → Option Nat
+  | .var v => some (match free.idxOf? v with
+      | some j => TT.var free.length j
+      | none => TT.const free.length (base.testBit v))
+  | .restrict t v c => match free.idxOf? v with
+      | some j => some (TT.restrict free.length (tts.getD t 0) j c)
+      | none => if base.testBit v == c then some (tts.getD t 0) else none
+  | op => some (ttOp free.length tts op)
+
 /-- one diagram-building operation: the proved `stepOp` on the model store, `ttOp` on the specification -/
-def bddOp (b : BddSt) (ws : List String) : Option (Store × Nat × Nat) := do
-  let op ← parseOp b.hist.size ws
-  let r := stepOp b.s b.hist.toList op
-  pure (r.1, r.2, ttOp b.nv b.tts op)
+def bddOp (b : BddSt) (ws : List String) : Option (Op × Nat) :=
+  match parseOp b.hist.size ws with
+  | none => none
+  | some op =>
+    (match b.big with
+      | some (base, free) => ttOpBig base free b.tts op
+      | none => some (ttOp b.nv b.tts op)).map (fun tt => (op, tt))
+
+/-- a diagram-building request. The store is taken OUT of the state before the operation runs, so
+that the compiled driver updates its tables in place (a shared store is copied on every insertion). -/
+def bddOpStep (b : BddSt) (l : String) (ws : List String) : List String × BddSt :=
+  match bddOp b ws with
+  | none => ([l, "= bad-request", "~ bad-request"], { b with hist := b.hist.push 0, tts := b.tts.push 0 })
+  | some (op, tt) =>
+    let hist := b.hist.toList
+    let s0 := b.s
+    let b := { b with s := Store.init }
+    let r := stepOp s0 hist op
+    ([l, s!"= {r.2}", s!"~ {tt}"], { b with s := r.1, hist := b.hist.push r.2, tts := b.tts.push tt })
 
 def showDeps (xs : List Nat) : String := "[" ++ showNats "," (sortDedup xs) ++ "]"
 
@@ -68,7 +97,8 @@ def bddQuery (b : BddSt) (w : String) : Option (String × String) := do
   let sp := TT.paths b.nv tt
   let sat := TT.sat b.nv tt
   let unsat := TT.unsat b.nv tt
-  let spec := s!"sat {unsat} {sat} paths {sp.1} {sp.2} depth {TT.depth b.nv tt} deps {showDeps (TT.deps b.nv tt)} more {boolBit (decide (sat ≥ unsat))}"
+  let satmemo := if b.exception then "- -" else s!"{unsat} {sat}"
+  let spec := s!"sat {unsat} {sat} satmemo {satmemo} pathsmemo {sp.1} {sp.2} paths {sp.1} {sp.2} depth {TT.depth b.nv tt} deps {showDeps (TT.deps b.nv tt)} more {boolBit (decide (sat ≥ unsat))}"
   pure (eq, spec)
 
 def showCube (c : PCube) : String := showNats "," c.1 ++ "/" ++ showNats "," c.2
@@ -136,14 +166,19 @@ def memoCheck (nv : Nat) (exc : Bool) (table : Array Node) (ws : List String) : 
 def bddStep (b : BddSt) (l : String) (ws : List String) : Option (List String × BddSt) :=
   match ws with
   | ["new", nv] => some ([l], BddSt.fresh (nv.toNat?.getD 0) b.exception)
+  | ["newbig", nv, base, free] =>
+    match nv.toNat?, base.toNat?, parseNatList free "," with
+    | some nv, some base, some free =>
+      if free.length ≤ 7 && free.Nodup && free.all (· < nv) then
+        some ([l], { BddSt.fresh nv b.exception with tts := #[0, TT.mask free.length], big := some (base, free) })
+      else some ([l, "= bad-request"], b)
+    | _, _, _ => some ([l, "= bad-request"], b)
   | "var" :: _ | "const" :: _ | "not" :: _ | "and" :: _ | "or" :: _ | "imp" :: _ | "iff" :: _ | "xor" :: _
   | "restrict" :: _ =>
-    match bddOp b ws with
-    | some (s, r, tt) => some ([l, s!"= {r}", s!"~ {tt}"], { b with s := s, hist := b.hist.push r, tts := b.tts.push tt })
-    | none => some ([l, "= bad-request", "~ bad-request"], { b with hist := b.hist.push 0, tts := b.tts.push 0 })
+    some (bddOpStep b l ws)
   | ["q", w] =>
     match bddQuery b w with
-    | some (e, s) => some ([l, s!"= {e}", s!"~ {s}"], b)
+    | some (e, s) => some ([l, s!"= {e}", if b.big.isSome then "~ skipped" else s!"~ {s}"], b)
     | none => some ([l, "= bad-request", "~ bad-request"], b)
   | ["cubes", w, g, gv] =>
     match b.h w, gv.toNat? with
@@ -169,7 +204,7 @@ def bddStep (b : BddSt) (l : String) (ws : List String) : Option (List String ×
   | ["dump"] => some ([l, s!"= {dumpTable b.s.nodes}"], b)
   | ["wfcheck", t] =>
     match parseTable t with
-    | some ns => some ([l, s!"~ {wfCheck ns}"], b)
+    | some ns => some ([l, s!"~ {wfCheckFast ns}"], b)
     | none => some ([l, "~ bad-request"], b)
   | ["alltt"] => some ([l, "~ " ++ showNats "," b.tts.toList], b)
   | ["classes"] =>
@@ -180,5 +215,15 @@ def bddStep (b : BddSt) (l : String) (ws : List String) : Option (List String ×
     | some ns => some ([l, s!"= audit {MemoCheck.verdict b.nv b.exception ns rest (fun _ => memoCheck b.nv b.exception ns rest)}"], b)
     | none => some ([l, "= bad-request"], b)
   | _ => none
+
+/-- `bddStep` that always hands the state back (so that the caller need not keep a second reference) -/
+def bddStepL (b : BddSt) (l : String) (ws : List String) : Option (List String) × BddSt :=
+  match ws with
+  | "var" :: _ | "const" :: _ | "not" :: _ | "and" :: _ | "or" :: _ | "imp" :: _ | "iff" :: _ | "xor" :: _
+  | "restrict" :: _ => let r := bddOpStep b l ws; (some r.1, r.2)
+  | _ =>
+    match bddStep b l ws with
+    | some (out, b') => (some out, b')
+    | none => (none, b)
 
 end Drv
